@@ -19,10 +19,13 @@
       (ii) dec = tree: same structure, keys, strings, booleans; ints numerically; in the exact modes non-zero doubles bit
            for bit (an integral double may come back as an int with the same value) and floats exactly after
            conversion to float;
-      (iii) layout (texts up to 6000 bytes): text is exactly  Ser(tree, mode)  of spec/XdlWriter.tla - the writer
-           specification with every flag, line-break and indentation rule - where each double/float leaf stands for
-           "one number token" (its digits are judged by (i)); mode = the Json::Mode bits passed, + JSON for Json::. *)
-EXTENDS JsonText, XdlWriter, Json, IOUtils
+      (iii) layout (texts up to 6000 bytes): text is compared with  Ser(tree, mode)  of spec/XdlWriter.tla (each double/float
+           leaf standing for "one number token"; mode = the Json::Mode bits passed, + JSON for Json::).  The exact layout
+           is NOT part of C05: a text that differs is a *deviation* (counted in TLC register 1, written to <trace>.dev for the check's
+           evidence) and is accepted as long as the text itself is inside the reader's language with the tree's value -
+           JSON by (i), XDL by the parser design XdlSM - and keeps the documented promises of the flags
+           (XdlWriter!ModePromises: no line break / white space without PRETTY, indented lines with PRETTY). *)
+EXTENDS JsonText, XdlWriter, XdlSM, Json, IOUtils
 
 T == ndJsonDeserialize(IOEnv.TRACE)
 VARIABLE l
@@ -41,6 +44,16 @@ TreeUtf8(a) ==
     ELSE IF TKind(a) = "o" THEN \A j \in 1..Len(a.o) : Utf8OK(a.o[j][1]) /\ TreeUtf8(a.o[j][2])
     ELSE TRUE
 
+\* the real text is not, byte for byte (number tokens aside), what the specification's serializer writes
+Deviates(e, tree) == /\ "text" \in DOMAIN e /\ "mode" \in DOMAIN e /\ Len(e.text) <= 6000
+                     /\ ~MatchLayout(e.text, Ser(tree, e.mode + 8 * e.json))
+\* ... which is no failure as long as the text itself keeps what C05 and the documentation of the flags demand
+DevOK(e, tree) ==
+    LET m == e.mode + 8 * e.json IN
+    /\ (e.json = 0) => LET r == Decode(e.text) IN r.ok /\ WDenotes(r.v, tree, m)      \* XDL: the parser design accepts it (JSON: (i))
+    /\ ModePromises(e.text, m, tree)
+\* deviating lines are counted in TLC register 1 (a counter *variable* would put a primed variable into the scope of the LETs
+\* below, which switches off TLC's caching of LET values: measured 30 times slower)
 RtOK(e) ==
     LET tree == Expand(e.tree) IN
     /\ (e.json = 1 /\ "text" \in DOMAIN e) => LET r == Doc(e.text) IN
@@ -50,15 +63,15 @@ RtOK(e) ==
                        \* reduced-precision modes: tree ~ token is (i) above (15/7 digits); token -> decoded must be exact
                        /\ (e.exact = 0) => ValMatches(r.v, e.dec, TRUE)
     /\ TreeRoundTrip(tree, e.dec, e.exact = 1)
-    /\ ("text" \in DOMAIN e /\ "mode" \in DOMAIN e) =>
-          (Len(e.text) <= 6000 => MatchLayout(e.text, Ser(tree, e.mode + 8 * e.json)))
+    /\ IF Deviates(e, tree) THEN DevOK(e, tree) /\ TLCSet(1, TLCGet(1) + 1) ELSE TRUE
 
-TInit == l = 1
+TInit == l = 1 /\ TLCSet(1, 0)
 TStep == /\ l <= Len(T)
          /\ l' = l + 1
          /\ LET e == T[l] IN
             \/ e.e = "reset"
             \/ e.e = "rt" /\ RtOK(e)
+         /\ (l = Len(T) => JsonSerialize(IOEnv.TRACE \o ".dev", [dev |-> TLCGet(1), lines |-> Len(T)]))
 TraceSpec == TInit /\ [][TStep]_l
 TraceAccepted == TLCGet("stats").diameter - 1 = Len(T)
 ===============================================================================
